@@ -313,7 +313,7 @@ def task(args):
 
 def run(run):
     items = []
-    for L in (1, 2, 3):
+    for L in ((1, 2, 3) if run.tier == "quick" else (1, 2, 3, 4)):
         for seq in itertools.product(MODES, repeat=L):
             add_variants = [tuple([None] * L), tuple(f"k{i}" for i in range(L))]
             if run.tier == "thorough" and L > 1:
